@@ -672,6 +672,27 @@ def spec_search(ctx, shim, model, r, nfonts):
                          "and no crash")
 
 
+def seed_search(ctx, shim, model):
+    """corpus/C17/seeds.json: requests that once crashed the crate; they must pass for good."""
+    import json
+    path = os.path.join(vlib.ROOT, "corpus", "C17", "seeds.json")
+    seeds = json.load(open(path))["seeds"] if os.path.exists(path) else []
+    for sd in seeds:
+        ln = sd["request"]
+        x = vlib.run_lines(shim, [ln], nproc=1, timeout=120)[0]
+        y = vlib.run_lines(model, [ln], nproc=1, timeout=120)[0]
+        z = vlib.run_lines(model, [ln.replace("morx run", "morx spec", 1)], nproc=1, timeout=120)[0]
+        bad = None
+        if not x.startswith("ok"): bad = "crate: " + x[:120]
+        elif canon(x) != canon(y): bad = "crate and model differ"
+        elif z.startswith("ok") and gids_of(x.split()[3]) != gids_of(z.split()[1]): bad = "crate differs from the AAT reference"
+        if bad:
+            ctx.violation(f"corpus seed {sd['name']}: {bad}", {"stage": "search", "stream": "morx-seeds", "seed": sd["name"],
+                          "request": ln, "crate": x[:300], "model": y[:300], "spec": z[:300]})
+    ctx.note_search("morx-seeds", len(seeds), len(seeds), rule="corpus/C17/seeds.json, run first: no panic, crate == model, "
+                    "crate == reference where defined")
+
+
 def verb_search(ctx, shim, model, maxlen):
     """hook `RearrangementCtx::transition` against Apple's verb table (Spec/Aat.applyVerb), all 16 verbs x all
     marked ranges: a changed nibble of MAP shows up here with the failing verb and range."""
@@ -694,7 +715,8 @@ def verb_search(ctx, shim, model, maxlen):
                     rule="16 verbs x every marked range of buffers <= %d glyphs; non-trivial = the range was permuted" % maxlen)
 
 
-CORPUS_SEEDS = ["lLAvA", "XXAYYAZZ", "ABCDE", "aeiou"]
+# "lLAvA" (TestMORXThirtyone) and "bYMBbA"/"blMXvBvA" (TestMORXTwentynine) crashed shape() before the D6 repair
+CORPUS_SEEDS = ["lLAvA", "bYMBbA", "blMXvBvA", "hMBA", "XXAYYAZZ", "ABCDE", "aeiou"]
 ALPHA = "abcdefghijklmnopqrstuvwxyzABCDEFGHIJKLMNOPQRSTUVWXYZ0123456789 .,-'"
 
 
@@ -746,7 +768,7 @@ def corpus_search(ctx, shim, r, per_font):
                       {"stage": "search", "stream": "morx-corpus", "font": base, "text": t,
                        "panic_at": site, "observed": x[:200]})
     ctx.note_search("morx-corpus", total, nontriv, fonts=len(meta),
-                    rule="every *MORX*.ttf of tests/fonts x (4 fixed + random) ASCII strings <= 8 chars through "
+                    rule="every *MORX*.ttf of tests/fonts x (7 fixed + random) ASCII strings <= 8 chars through "
                          "shape(); non-trivial = the glyph count differs from the character count")
 
 
@@ -858,7 +880,9 @@ def fontbuild_cross(ctx, shim, r, nfonts):
 
 
 def d17_probe(ctx, shim):
-    """D17 through the public API: a non-contextual subtable switched on by `smcp` for clusters [2,4) only."""
+    """D17 (repaired in the crate by the fix commit \"morx non-contextual subtable looks up the feature range of the
+    glyph being substituted\") through the public API: a non-contextual subtable switched on by `smcp` for clusters
+    [2,4) only. Kept as a permanent regression probe; also smcp[0:2] (used to substitute every glyph)."""
     r = vlib.Rng(0, "d17")
     seen = {g: g for g in range(NG)}
     seen.update({g: g + 1 for g in range(1, 8)})
@@ -876,19 +900,28 @@ def d17_probe(ctx, shim):
     got = gids_of(out.split()[1]) if out.startswith("ok") else out
     ctx.cov.setdefault("probes", {})["D17"] = {"request_feature": "smcp[2:4]=1", "glyphs_in": gl, "expected": want,
                                                "observed": got}
+    ln2 = f"morx shape {font.hex()} R 0 I l 0 {tag_hex('smcp')}:1:0:2 {text}"
+    out2 = vlib.run_lines(shim, [ln2], nproc=1)[0]
+    got2 = gids_of(out2.split()[1]) if out2.startswith("ok") else out2
+    if got2 != [2, 3, 3, 4, 5]:
+        ctx.violation(f"non-contextual subtable ignores the feature range: smcp[0:2] on glyphs {gl} gives {got2}, "
+                      f"expected [2, 3, 3, 4, 5] (D17)", {"stage": "search", "stream": "morx-d17", "request": ln2,
+                      "feature": "smcp[0:2]=1", "expected": [2, 3, 3, 4, 5], "observed": got2})
     if got != want:
         ctx.violation(f"non-contextual subtable ignores the feature range: smcp[2:4] on glyphs {gl} gives {got}, "
                       f"expected {want} (D17)", {"stage": "search", "stream": "morx-d17", "request": ln,
                       "feature": "smcp[2:4]=1", "expected": want, "observed": got})
-    ctx.note_search("morx-d17", 1, 1, rule="one fixed probe of the feature-range handling of the non-contextual subtable")
+    ctx.note_search("morx-d17", 2, 2, rule="two fixed probes of the feature-range handling of the non-contextual subtable")
 
 
-# finding F2: a font (found by the morx-run generator, seed 5) whose single insertion subtable makes a 3-glyph
-# string cost work cubic in max_ops: an out-of-range marked-insert index makes InsertionCtx::transition return
-# (`glyphs.get(i)?`) right after move_to(mark)+copy_glyph, so the cursor stays rewound at the mark (=0) and one
-# glyph is duplicated; drive re-scans the whole buffer once per unit of max_ops, and every re-scanned glyph
-# runs a zero-count marked insertion (move_to(0) and back: O(n) for 0 ops). With the default budget of shape()
-# (max_ops = 16384) the 3 glyphs below did not finish in 15 minutes.
+# finding F2 (repaired in the crate: "morx insertion subtable inserts nothing when the glyph list reaches past the
+# insertion table"): a font found by the morx-run generator whose single insertion subtable made a 3-glyph string
+# cost work cubic in max_ops — an out-of-range marked-insert index made InsertionCtx::transition return
+# (`glyphs.get(i)?`) right after move_to(mark)+copy_glyph, so the cursor stayed rewound at the mark (=0) and one
+# glyph was duplicated; drive re-scanned the whole buffer once per unit of max_ops, and every re-scanned glyph ran a
+# zero-count marked insertion (move_to(0) and back: O(n) for 0 ops). With the default budget of shape()
+# (max_ops = 16384) the 3 glyphs did not finish in 15 minutes. Kept as a permanent timing probe (also
+# corpus/C01/morx_insertion_slow.json for the C01 check).
 SLOW_FONT_HEX = "000100000006004000020020636d6170000000000000006c000000346865616400000000000000a0000000366868656100000000000000d800000024686d747800000000000000fc000000306d617870000000000000012c000000066d6f72780000000000000134000000dc000000010003000a0000000c000c0000000000280000000000000002000000610000006b000000010000e0000000e00a000000010001000000010000000000005f0f3cf5000003e8000000000000000000000000000000000000000003e803e8000000080002000000000000000100000320ff38000003e80000000003e800010000000000000000000000000000000c01f4000001fe00000208000002120000021c00000226000002300000023a000002440000024e0000025800000262000000005000000c0000000200000000000100000001000000d40000000200000001000e000100000001000000000001000200000001fffffff9000000ac00000005000000010000000700000014000000680000002e0000005e0000000600010001000100050006000300020001000400040001000148610064ffff00010c620002ffff00000c430001000100020861ffff0056000200000003000200030043ffffffff000c00030008000300050005000100030000000200000000000200020000000100080000000300010004000300050005000100030001000000050005000300030000"
 SLOW_FONT_RECIPE = "12 0 1 1 2 14 1 1 0 1 2 1 4294967289 1 0 1 5 7 12 0 6 1 1 2 1 3 1 4 5 5 6 6 3 7 2 8 1 9 4 10 4 11 1 28 5 1 3 0 2 0 0 2 2 0 1 8 0 3 1 4 3 5 5 1 3 1 0 5 5 3 3 0 14 1 18529 100 65535 1 3170 2 65535 0 3139 1 1 2 2145 65535 86 2 0 3 2 3 67 65535 65535 12 3 8 3 5 5 1 3 0 2 0 0 2 2 0 1 8 0 3 1 4 3 5 5 1 3 1 0 5 5 3 3 33 12 3 8 3 5 5 1 3 0 2 0 0 2 2 0 1 8 0 3 1 4 3 5 5 1 3 1 0 5 5 3 3 0"
 SLOW_GLYPHS = "11:2,8:1,0:0"
@@ -897,17 +930,22 @@ SLOW_GLYPHS = "11:2,8:1,0:0"
 def slow_probe(ctx, shim, model):
     import time
     obs = []
-    for mo in ctx.budget((200, 400, 800), (400, 800, 1600, 3200)):
+    for mo in ("400", "3200", "-"):
         ln = f"morx run {SLOW_FONT_HEX} R {SLOW_FONT_RECIPE} I l 0 {mo} - - {SLOW_GLYPHS}"
-        t0 = time.time(); x = vlib.run_lines(shim, [ln], nproc=1, timeout=300)[0]; dt = time.time() - t0
-        y = vlib.run_lines(model, [ln], nproc=1, timeout=600)[0] if mo <= 800 else x
+        t0 = time.time(); x = vlib.run_lines(shim, [ln], nproc=1, timeout=60)[0]; dt = time.time() - t0
+        y = vlib.run_lines(model, [ln], nproc=1, timeout=120)[0]
         obs.append({"max_ops": mo, "seconds": round(dt, 3), "model_agrees": canon(x) == canon(y),
                     "glyphs_out": len(gids_of(x.split()[3])) if x.startswith("ok") else x[:30]})
-    ctx.cov.setdefault("probes", {})["F2-insertion-rescan"] = {
-        "glyphs_in": SLOW_GLYPHS, "observations": obs,
-        "note": "time grows ~8x per doubling of max_ops (cubic); shape() uses max_ops >= 16384"}
-    if any(not o["model_agrees"] for o in obs):
-        ctx.violation("model and crate disagree on the F2 probe", {"stage": "search", "stream": "morx-f2", "observations": obs})
+    t0 = time.time()
+    z = vlib.run_groups(shim, [["font f " + SLOW_FONT_HEX, "shape f l - - 0 0 - - - 6b:0,68:1,21:2"]], nproc=1, timeout=60)[0][1]
+    obs.append({"shape()": "kh!", "seconds": round(time.time() - t0, 3), "reply": z[:40]})
+    ctx.cov.setdefault("probes", {})["F2-insertion-rescan"] = {"glyphs_in": SLOW_GLYPHS, "observations": obs}
+    slow = [o for o in obs if o["seconds"] > 10 or str(o.get("glyphs_out", o.get("reply", ""))).startswith(("timeout", "abort"))]
+    if slow or any(not o.get("model_agrees", True) for o in obs) or not z.startswith("ok 14 "):
+        ctx.violation("F2 probe (insertion subtable with an out-of-range glyph list): slow, crashing or not as the model",
+                      {"stage": "search", "stream": "morx-f2", "observations": obs})
+    ctx.note_search("morx-f2", len(obs), len(obs), rule="the former hang: 3 glyphs on SLOW_FONT_HEX at max_ops 400 / 3200 / "
+                    "default through the hook and through shape(); must finish in < 10 s and agree with the model")
 
 
 def run(ctx):
@@ -935,6 +973,7 @@ def run(ctx):
     ctx.correspond("morx-compile", lines=compile_lines(ctx.rng("compile"), ctx.budget(1500, 80000)),
                    classify=classify_compile, canon=canon)
     # search
+    seed_search(ctx, shim, model)
     verb_search(ctx, shim, model, ctx.budget(8, 10))
     spec_search(ctx, shim, model, ctx.rng("spec"), ctx.budget(350, 20000))
     corpus_search(ctx, shim, ctx.rng("corpus"), ctx.budget(400, 15000))
@@ -942,12 +981,6 @@ def run(ctx):
     fontbuild_cross(ctx, shim, ctx.rng("fontbuild"), ctx.budget(150, 3000))
     d17_probe(ctx, shim)
     slow_probe(ctx, shim, model)
-    # vlib.finish() reports a broken proof / correspondence on its own line only when no failing input was found;
-    # the genuine defects above always produce failing inputs, so say it here explicitly
-    if ctx.broken and any(v[2] for v in ctx.violations):
-        names = [str(b.get("module") or b.get("stream")) for b in ctx.broken]
-        ctx.violation("proof or correspondence no longer checks: " + ", ".join(names),
-                      {"stage": "prove/correspond", "broken": ctx.broken}, found_input=False)
 
 
 def replay(ctx, rp):
@@ -965,6 +998,12 @@ def replay(ctx, rp):
         print("crate:", a[:300]); print("spec :", b[:300])
         ok = a.startswith("ok") and (b == "undef" or gids_of(a.split()[3]) == gids_of(b.split()[1]))
         return 0 if ok else 1
+    if st == "morx-seeds":
+        model = vlib.build_model()
+        a = vlib.run_lines(shim, [rp["request"]], nproc=1)[0]
+        b = vlib.run_lines(model, [rp["request"]], nproc=1)[0]
+        print("crate:", a[:300]); print("model:", b[:300])
+        return 0 if a.startswith("ok") and canon(a) == canon(b) else 1
     if st == "morx-verbs":
         model = vlib.build_model()
         a = vlib.run_lines(shim, [rp["request"]], nproc=1)[0]
